@@ -6,6 +6,7 @@ counts: stream window 1530, connection window 65 535, padding of 1 or 255 octets
 the guarded statistics snapshot and the WINDOW_UPDATE frames written are compared with the model.  Mismatch = DRIFT.
 usage: conform_recv.py <num> <seed> <outdir>  -> <outdir>/conform_recv.json"""
 import sys, os, json, subprocess, re, shutil
+TLCW = os.path.join(os.path.dirname(os.path.dirname(os.path.abspath(__file__))), "bin", "tlcw")  # tlc with a large main-thread stack
 VERIF = os.path.dirname(os.path.dirname(os.path.abspath(__file__)))
 SPEC = os.path.join(VERIF, "spec")
 SIM = os.path.join(VERIF, "harness", "target", "debug", "sim")
@@ -15,7 +16,7 @@ U = 1   # the model runs on real octet counts (integer halving in the threshold 
 def tlc_behaviours(num, seed, outdir):
     md = os.path.join(outdir, "tlcmeta"); os.makedirs(md, exist_ok=True)
     env = dict(os.environ, JAVA_TOOL_OPTIONS="-Xss1g -Xmx4g -DTLA-Library=%s" % SPEC)
-    cmd = ["timeout", "600", "tlc", "-workers", "1", "-metadir", md, "-cleanup", "-noGenerateSpecTE", "-config", "MC_Recv_export.cfg",
+    cmd = ["timeout", "600", TLCW, "-workers", "1", "-metadir", md, "-cleanup", "-noGenerateSpecTE", "-config", "MC_Recv_export.cfg",
            "MC_Recv.tla", "-simulate", "num=%d" % num, "-depth", "70", "-seed", str(seed)]
     r = subprocess.run(cmd, cwd=os.path.join(SPEC, "mc"), env=env, stdout=subprocess.PIPE, stderr=subprocess.STDOUT, text=True)
     shutil.rmtree(md, ignore_errors=True)
